@@ -75,6 +75,29 @@ CHECKS = {
         "transducer is compared with the real foldline on all strings <= 4 and seeded long strings each run; regex transducer vs re.sub "
         "exhaustively to length 6/7. limit/fold_sep are the defaults read from the signature (75, CRLF+space).",
    technique="contract-based deductive verification: semantic loop quotient of the real loop + regular inclusion/equivalence decided by fstc; bounded stand-in"),
+ "C05": dict(
+   category="proof", design_ref="DESIGN.md section 4 and section 8 C05", engine="fstc",
+   text="Contentline.from_parts and Contentline.parts are composed at text level from pieces extracted from the real source (dquote, "
+        "escape_string, unescape_string, regexes) and from certified loop quotients of the real scanning loops (parts, q_split: the loop "
+        "body is symbolically executed by pyvc and every path condition atom must be an abstract predicate). Decided for ALL triples "
+        "(name, parameter map, value text): parts inverts from_parts outside the listed known classes; NO INJECTION: wherever parts "
+        "accepts the line the property name and the sequence of parameter names are exactly the intended ones, for every parameter value "
+        "over the whole alphabet (quotes, control character, backslash, ; : , % ...) and every value text; LF is refused. Tree-level "
+        "structure on real objects is a labelled bounded stand-in.",
+   note="Trusted: fstc; the transcribed glue of from_parts/parts/Parameters.to_ical/from_ical (guarded by shape checks and compared with the "
+        "real methods each run); alphabet abstraction; parameter values of the round-trip lemma are free of double quotes and control "
+        "characters (C08's precondition). Known findings C05-F1/F2 (placeholder scheme rewrites %2C etc.).",
+   technique="contract-based deductive verification: rational transducers extracted from the source + certified loop quotients, equivalence decided by fstc; bounded stand-in"),
+ "C08": dict(
+   category="proof", design_ref="DESIGN.md section 4 and section 8 C08", engine="fstc",
+   text="dquote is extracted from the source; q_split's real loop is quotiented (certified by pyvc symbolic execution of its body) for the "
+        "three call sites and proved equal to the quote-aware split specification; decided for ALL strings: dquote output has quotes only "
+        "at its ends, every value containing , ; : is quoted, value lists and whole parameter texts survive to_ical -> from_ical (order and "
+        "arity kept, empty values included) for values free of double quotes and control characters, alone and inside a content line "
+        "(outside the listed known class). Real Parameters / Contentline / Event routes are a labelled bounded stand-in.",
+   note="Trusted: fstc; transcribed per-item processing of Parameters.from_ical (shape checks + exhaustive comparison with the real method; a "
+        "disagreement makes the dependent obligations undecided); names compared after upper-casing (C17). Known finding C08-F1.",
+   technique="contract-based deductive verification: rational transducers + certified loop quotient of q_split, decided by fstc; bounded stand-in"),
 }
 NA_REASON = "check not built yet (build round in progress; DESIGN.md section 8 describes the planned contracts)"
 
@@ -86,7 +109,7 @@ def main():
                    "source_commits": [], "add_only": True},
          "engines": [
              {"name": "pyvc", "path": "vc/pyvc", "serves_properties": sorted(CHECKS), "kind_free_text": "symbolic executor over the real functions' AST producing verification conditions, discharged by z3 5.1.0 (cvc5 for z3 unknowns)"},
-             {"name": "fstc", "path": "vc/fstc", "serves_properties": ["C06", "C07"], "kind_free_text": "decision procedure for rational string functions (functional transducers): equivalence, image inclusion, shortest counterexamples"},
+             {"name": "fstc", "path": "vc/fstc", "serves_properties": ["C05", "C06", "C07", "C08"], "kind_free_text": "decision procedure for rational string functions (functional transducers): equivalence, image inclusion, shortest counterexamples"},
              {"name": "fin", "path": "vc/fin", "serves_properties": sorted(CHECKS), "kind_free_text": "exhaustive evaluation over finite domains; cross-checks of assumed contracts against CPython"},
          ],
          "checks": [], "notes": "see DESIGN.md; known findings in known_findings.json", "not_applicable": []}
